@@ -37,7 +37,12 @@ def new_model_optim(cfg):
     m = torch.nn.Linear(1, 1, bias=False)
     with torch.no_grad():
         m.weight.fill_(-1.0)
-    o = torch.optim.SGD(m.parameters(), lr=cfg.get("init_lr", 1.0), momentum=0.5)
+    # two parameter groups (weight / an extra bias-like parameter) with the same rate: the controller must
+    # write a reduced rate into every group
+    extra = torch.nn.Parameter(torch.zeros(1))
+    m.register_parameter("extra", extra)
+    lr = cfg.get("init_lr", 1.0)
+    o = torch.optim.SGD([{"params": [m.weight]}, {"params": [extra]}], lr=lr, momentum=0.5)
     return m, o
 
 
